@@ -116,6 +116,7 @@ AXES_DECL = [
     ("share.notes_distinct", _B, 1, 1, 1, ALL),
     ("share.sound_event_distinct", _B, 0, 0, 1, EVAL), ("share.sequence_distinct", _B, 0, 0, 1, EVAL),
     ("share.second_item_same_clip", _B, 0, 0, 0, CLIPPED),
+    ("eval.shared_annotations", _B, 0, 0, 0, EVAL), ("eval.shared_predictions", _B, 0, 0, 0, EVAL),
     ("sea.same_sound_event", _B, 0, 0, 0, ANN), ("seq.parent_also_annotated", _B, 0, 0, 0, ANN),
     ("feat.zero_value", (0, 1, 2), 0, 0, 0, ALL),
     ("time.tz_aware", _B, 0, 0, 0, ALL),
@@ -299,7 +300,7 @@ class Universe:
         c = self.c
 
         def make():
-            ci = 0 if c["share.second_item_same_clip"] else i
+            ci = 0 if (c["share.second_item_same_clip"] or c["eval.shared_annotations"] or c["eval.shared_predictions"]) else i
             seas = []
             for j in range(c["ca.sound_events"]):
                 se = self.sound_event("c%d:%d" % (i, 0 if c["sea.same_sound_event"] else j), ci, i * 2 + j)
@@ -326,7 +327,7 @@ class Universe:
         c = self.c
 
         def make():
-            ci = 0 if c["share.second_item_same_clip"] else i
+            ci = 0 if (c["share.second_item_same_clip"] or c["eval.shared_annotations"] or c["eval.shared_predictions"]) else i
             seps = []
             for j in range(c["cp.sound_events"]):
                 if for_eval and not c["share.sound_event_distinct"]:
@@ -357,8 +358,13 @@ class Universe:
         c = self.c
 
         def make():
-            ca = self.clip_annotation(i)
-            cp = self.clip_prediction(i, for_eval=True)
+            # one reference scored against two models (or one model run against two references): the second clip evaluation
+            # shares the first one's ClipAnnotation / ClipPrediction object
+            ca = self.clip_annotation(0 if (i and c["eval.shared_annotations"]) else i)
+            cp = self.clip_prediction(0 if (i and c["eval.shared_predictions"]) else i, for_eval=True)
+            if ca.clip.uuid != cp.clip.uuid:
+                # keep the pair on one clip (the ClipEvaluation validator requires it): fall back to the unshared pair
+                ca, cp = self.clip_annotation(i), self.clip_prediction(i, for_eval=True)
             # with a shared clip for the second item the prediction clip already equals the annotation clip
             matches = []
             A, P = list(ca.sound_events), list(cp.sound_events)
